@@ -109,7 +109,7 @@ class R:
 class Sub:
     """One sub-check: a complete case list and its executor."""
     def __init__(self, name, cases, run_case, rule, min_nontrivial=2, min_outcomes=2,
-                 required_tags=(), parallel=True, setup=None):
+                 required_tags=(), parallel=True, setup=None, case_timeout=20):
         self.name = name
         self.cases = cases            # list (already complete for the tier)
         self.run_case = run_case
@@ -119,6 +119,7 @@ class Sub:
         self.required_tags = tuple(required_tags)
         self.parallel = parallel
         self.setup = setup
+        self.case_timeout = case_timeout   # seconds; a case that exceeds it is reported as a violation
 
 
 # ---------------------------------------------------------------------------
@@ -135,7 +136,8 @@ def _run_range(arg):
     for idx in range(start, stop):
         case = sub.cases[idx]
         try:
-            r = sub.run_case(case)
+            with time_limit(sub.case_timeout):
+                r = sub.run_case(case)
         except CaseTimeout as e:
             r = R(viol={'observed': 'timeout: %s' % e}, outcome='timeout')
         except Exception:
@@ -179,10 +181,11 @@ def explore(sub, seed=0, workers=None):
     merged = {'n': 0, 'steps': 0, 'nontrivial': set(), 'distinct': set(), 'outcomes': {},
               'viol': [], 'tags': set(), 'errors': [], 'samples': [], 'viol_overflow': 0}
     if sub.parallel and workers > 1 and n > 64:
+        import concurrent.futures as cf
         ctx = multiprocessing.get_context('fork')
-        with ctx.Pool(workers) as pool:
-            parts = pool.imap_unordered(_run_range, ranges)
-            for p in parts:
+        with cf.ProcessPoolExecutor(workers, mp_context=ctx) as pool:
+            # a worker that dies abruptly raises BrokenProcessPool here instead of hanging the run
+            for p in pool.map(_run_range, ranges):
                 _merge(merged, p)
     else:
         for rg in ranges:
@@ -251,6 +254,7 @@ def run_check(prop, subs, tier, seed, level='model_checking', assumptions=(), ex
             'outcome_classes': dict(sorted(m['outcomes'].items(), key=lambda kv: -kv[1])[:12]),
             'n_outcome_classes': len(m['outcomes']), 'rule': sub.rule,
             'tags_seen': sorted(m['tags']), 'wall_s': round(time.time() - ts, 2),
+            'violations': len(m['viol']) + m['viol_overflow'],
         }
         total['n'] += m['n']
         total['steps'] += m['steps']
@@ -297,7 +301,8 @@ def run_check(prop, subs, tier, seed, level='model_checking', assumptions=(), ex
         try:
             if sub.setup:
                 sub.setup()
-            r2 = sub.run_case(v['case'])
+            with time_limit(sub.case_timeout):
+                r2 = sub.run_case(v['case'])
             again = r2.viol is not None
         except CaseTimeout:
             again = True
@@ -343,8 +348,8 @@ def run_check(prop, subs, tier, seed, level='model_checking', assumptions=(), ex
           % (prop, tier, seed, total['n'], total['distinct'], total['nontrivial'], total['steps'],
              n_viol, sum(known_hits.values()), time.time() - t0))
     for name, ps in per_sub.items():
-        print('  - %-28s cases=%-8d nontrivial=%-8d outcomes=%-4d %.1fs' %
-              (name, ps['executed'], ps['distinct_nontrivial'], ps['n_outcome_classes'], ps['wall_s']))
+        print('  - %-28s cases=%-8d nontrivial=%-8d outcomes=%-4d violations=%-6d %.1fs' %
+              (name, ps['executed'], ps['distinct_nontrivial'], ps['n_outcome_classes'], ps['violations'], ps['wall_s']))
     if harness_errors:
         for e in harness_errors[:3]:
             print('HARNESS-ERROR sub=%s case=%s\n%s' % (e.get('sub'), canon(e.get('case'))[:400], e.get('traceback')), file=sys.stderr)
